@@ -75,3 +75,35 @@ Definition request_service_ab (L : limits) (k : N) (ct : list N) (declared : nat
     | _ => request_service L false ct declared body
     end
   else request_service L false ct declared body.
+
+(* ---------- the read side a content filter can disturb: stream position and failbit of a part's istream ---------- *)
+(* (file::data() is one std::istream per part; the parser rewinds it with seekg(0) at content_ready, request.cpp
+   again before on_data_ready, read_file() again before a form field is copied into post(); seekg is a no-op
+   while failbit is set - which ordinary stream-level reading to the end of the part leaves behind) *)
+Record sstate := mkss { s_pos : nat; s_fail : bool }.
+Definition seek0 (s : sstate) : sstate := if s_fail s then s else mkss 0 false.
+(* what a reading filter does in one callback *)
+Inductive rmode := RNone | RAll | RPart | REnd | RMid | RStream.
+(* state after the callback and the bytes the callback saw *)
+Definition after_read (how : rmode) (data : list N) (s : sstate) : sstate * list N :=
+  let size := length data in
+  match how with
+  | RNone => (s, [])
+  | RAll => (mkss size (s_fail s), skipn (s_pos s) data)                    (* rdbuf()->sbumpc() to the end: no stream flag *)
+  | RPart => (mkss (Nat.min size (s_pos s + Nat.div size 2)) (s_fail s), firstn (Nat.div size 2) (skipn (s_pos s) data))
+  | REnd => (if s_fail s then s else mkss size false, [])
+  | RMid => (if s_fail s then s else mkss (Nat.div size 2) false, [])
+  | RStream => if s_fail s then (s, []) else (mkss size true, skipn (s_pos s) data)   (* istream::read to the end: eofbit|failbit *)
+  end.
+(* request.cpp read_file (since /repo ebeb88c): clear(), seekg(0), copy everything - the state the filter left does
+   not matter *)
+Definition post_value (data : list N) (s : sstate) : list N := skipn (s_pos (seek0 (mkss (s_pos s) false))) data.
+(* before ebeb88c: seekg(0) only, a no-op while failbit is set (regression Example) *)
+Definition post_value_old (data : list N) (s : sstate) : list N := skipn (s_pos (seek0 s)) data.
+(* an uploaded file is handed to the application as the filter left it *)
+Definition handed (data : list N) (s : sstate) : list N := skipn (s_pos s) data.
+(* one part through a filter R<new><progress><ready> (progress callbacks do not read once failbit may be set, so the
+   state before on_data_ready is position 0): state when the part is delivered, bytes seen by on_data_ready *)
+Definition part_through_filter (fnew fready : rmode) (data : list N) : sstate * list N :=
+  let s0 := mkss 0 (match fnew with RStream => true | _ => false end) in
+  after_read fready data (seek0 (seek0 s0)).
